@@ -191,6 +191,73 @@ func isAtomicBool(name string) func(*types.Func) bool {
 }
 
 // flagOfCall: the captured variable of Do that an atomic.Bool Load/Store call inside goroutine g operates on.
+// flagOfAny resolves the receiver of an atomic call anywhere under Do - in one of its
+// closures, or in a method that a closure hands the flag's address to - to the variable of Do.
+func flagOfAny(r *doRoles, call ssa.CallInstruction) ssa.Value {
+	args := call.Common().Args
+	if len(args) == 0 {
+		return nil
+	}
+	fn := call.Parent()
+	if pr, ok := args[0].(*ssa.Parameter); ok && fn.Parent() == nil {
+		idx := -1
+		for i, q := range fn.Params {
+			if q == pr {
+				idx = i
+			}
+		}
+		var closures []*ssa.Function
+		var collect func(f *ssa.Function)
+		collect = func(f *ssa.Function) {
+			for _, a := range f.AnonFuncs {
+				closures = append(closures, a)
+				collect(a)
+			}
+		}
+		collect(r.Do)
+		for _, cl := range closures {
+			for _, cc := range core.Calls(cl) {
+				if core.StaticFn(cc) != fn || idx < 0 || idx >= len(cc.Common().Args) {
+					continue
+				}
+				if fv, ok := cc.Common().Args[idx].(*ssa.FreeVar); ok {
+					g := cl
+					for g != nil && g.Parent() != r.Do {
+						g = g.Parent()
+					}
+					if g == nil {
+						continue
+					}
+					// resolve fv of cl up to g, then to Do
+					f2, v := cl, fv
+					okc := true
+					for f2 != g {
+						b := freeVarBinding(f2.Parent(), f2, v.Name())
+						nfv, ok := b.(*ssa.FreeVar)
+						if !ok {
+							okc = false
+							break
+						}
+						v, f2 = nfv, f2.Parent()
+					}
+					if okc {
+						return freeVarBinding(r.Do, g, v.Name())
+					}
+				}
+			}
+		}
+		return nil
+	}
+	g := fn
+	for g != nil && g.Parent() != r.Do {
+		g = g.Parent()
+	}
+	if g == nil {
+		return nil
+	}
+	return flagOfCall(r, g, call)
+}
+
 func flagOfCall(r *doRoles, g *ssa.Function, call ssa.CallInstruction) ssa.Value {
 	args := call.Common().Args
 	if len(args) == 0 {
@@ -449,11 +516,7 @@ func ruleWatch(c *Ctx, p *core.Program, r *doRoles, prop string) {
 				if excFlag == nil {
 					continue
 				}
-				g := fn
-				for g != nil && g.Parent() != r.Do {
-					g = g.Parent()
-				}
-				if g == nil || flagOfCall(r, g, call) != excFlag {
+				if flagOfAny(r, call) != excFlag {
 					continue
 				}
 				n++
